@@ -34,6 +34,12 @@ CtxEv(e) ==
        IF i.r = "ok" /\ ConvH(i.ty, e.ty_open, ctx, FUEL).r = "no" THEN Bad(<<"C18", "type reported under the context is not the type of the open term in that context">>)
        ELSE IF e.whnf_open.k # "none" /\ Conv(Close(e.binders, e.whnf_open, FALSE), Close(e.binders, e.open, FALSE), <<>>, FUEL).r = "no"
             THEN Bad(<<"C18", "weak-head normal form under the context is not convertible with the term">>)
+       \* the closed program normalised on its own (definitions substituted, not looked up) must agree as well
+       ELSE IF e.whnf_closed.k # "none" /\ Conv(e.whnf_closed, Close(e.binders, e.open, FALSE), <<>>, FUEL).r = "no"
+            THEN Bad(<<"C18", "weak-head normal form of the closed program is not convertible with the program">>)
+       \* under the context the term and its weak-head normal form are the same term, in either order
+       ELSE IF e.whnf_open.k # "none" /\ ~HasHole(e.open) /\ (~e.self_unify \/ ~e.self_unify_swapped)
+            THEN Bad(<<"C18", "under the context a term does not unify with its own weak-head normal form", "term first", e.self_unify, "normal form first", e.self_unify_swapped>>)
        ELSE TRUE
 TInit == l = 1
 TNext == l <= Len(Rec) /\ l' = l + 1 /\ (IF Rec[l].ev = "ctx" THEN CtxEv(Rec[l]) ELSE Bad(<<"tool", "unknown event">>))
